@@ -8,7 +8,9 @@ import Driver.Broker
   Crypto is instantiated SYMBOLICALLY: the stored hash of password token p is the string `H(p)` (injective, i.e. no
   collisions); bcrypt refuses passwords longer than 72 bytes (golang.org/x/crypto v0.49). The Go side renders real
   hashes back into this notation using the passwords the script has used.
-  Argument `asis`: the unpatched plugin (F39: the file saved is ./<password_file>, the file loaded <ConfigDir>/<password_file>).
+  Argument `asis`: the code before the fixes 40eae5a (F39: file saved ./<password_file>, loaded <ConfigDir>/<password_file>),
+  f169349 (bcrypt compares 72 bytes only) and b5c09eb (enhanced authentication dead-lock).
+  A refused connection is closed by the server (fix 53130f4): `feed` ends every refusal with `hangup`.
 -/
 namespace Driver.AuthBroker
 open GmqttVerif GmqttVerif.Auth Driver Driver.Broker
@@ -118,21 +120,29 @@ def mkConnect (m : List (String × String)) (cid : String) (v : Nat) (uf pf : Bo
     user := if uf then val ((getS m "user").getD "") else "", pass := if pf then val ((getS m "pass").getD "") else "",
     authMethod := if v == 5 then getS m "am" else none, authData := (getS m "ad").getD "" }
 
-/-- feed one packet into a not-accepted connection; on acceptance the stored `conn` line goes to the broker model -/
-def feed (st : ASt) (x : NC) (p : Pkt) (lost : Bool := false) : ASt × String :=
+def pktOfKind (k : String) : Pkt :=
+  if k == "p0" then .publish 0 else if k == "p1" then .publish 1 else if k == "p2" then .publish 2
+  else if k == "g" then .garbage else .other
+
+/-- feed one write of the scripted client into a not-accepted connection: the first packet `p`, then the packets
+    pipelined behind it in the same write (`more=`); a refused connection is then closed by the server (`hangup`).
+    On acceptance the stored `conn` line goes to the broker model. -/
+def feed (st : ASt) (x : NC) (p : Pkt) (lost : Bool := false) (more : List String := []) : ASt × String :=
   if x.dead then (st, if x.c.phase == .awaitAuth then "send-failed -" else "no-conn") else
-  -- as is: during an enhanced authentication the broker does not read; the harness's write times out
+  -- before fix b5c09eb: during an enhanced authentication the broker does not read; the harness's write times out
   if x.c.phase == .awaitAuth && !st.cfg.authReadFix then (st.setNc { x with dead := true }, "send-failed -") else
-  let (c', effs) := Auth.step st.cfg x.c p
-  if c'.phase == .accepted && x.c.phase != .accepted then
+  let (c1, e1) := Auth.step st.cfg x.c p
+  if c1.phase == .accepted && x.c.phase != .accepted then
     -- `register` + CONNACK are the broker model's
     let st := st.dropNc x.name
     broker st x.line
   else
-    let x := { x with c := c', dead := c'.phase == .closed }
+    let (c2, e2) := Auth.run st.cfg c1 (more.map pktOfKind)
+    let (c3, e3) := if c2.phase == .rejected then Auth.step st.cfg c2 .hangup else (c2, [])
+    let effs := e1 ++ e2 ++ e3
+    let x := { x with c := c3, dead := c3.phase == .closed }
     let st := st.setNc x
     let vis := if lost then (showEffs effs).filter (fun v => !v.startsWith "connack(") else showEffs effs
-    -- a wedged read loop: the harness's next write times out
     if vis.isEmpty then (st, "-") else (st, x.name ++ "|H:" ++ String.intercalate "," vis ++ "|P:")
 
 def stateLine (b : GmqttVerif.Broker.B) : String :=
@@ -211,15 +221,16 @@ def step (asis : Bool) (st : ASt) (line : String) : ASt × String :=
       | none => (st, "bad-op")
       | some x =>
         let k := (getS m "k").getD "garbage"
+        let more := match getS m "more" with | some l => l.splitOn "," | none => []
         if k == "connect" then
           let v := getN m "v" 4
           let cid := (getS m "cid").getD "~"
           let p := mkConnect m cid v (getN m "uf" 0 == 1) (getN m "pf" 0 == 1)
-          feed st { x with line := s!"conn {cn} {cid} v={v} cs={getN m "cs" 1}" } (.connect p) (getN m "lost" 0 == 1)
-        else if k == "auth" then feed st x (.auth (getN m "code" 24) ((getS m "ad").getD ""))
-        else if k == "publish" then feed st x (.publish (getN m "q" 0))
-        else if k == "other" then feed st x .other
-        else feed st x .garbage
+          feed st { x with line := s!"conn {cn} {cid} v={v} cs={getN m "cs" 1}" } (.connect p) (getN m "lost" 0 == 1) more
+        else if k == "auth" then feed st x (.auth (getN m "code" 24) ((getS m "ad").getD "")) false more
+        else if k == "publish" then feed st x (.publish (getN m "q" 0)) false more
+        else if k == "other" then feed st x .other false more
+        else feed st x .garbage false more
     | _, cn :: _ =>
       match st.nc? cn with
       | none => broker st line
